@@ -204,25 +204,29 @@ fn hoist_enumerate_collect(pairs: PairIter) -> (r: Vec<(usize, (u8, u8))>)
 // here (`symbols.next()` is rewritten to `symbols.next(&mut stream)`). std's definition, which this contract transcribes:
 //     if self.flag { None } else { let x = self.iter.next()?; if (self.predicate)(&x) { Some(x) } else { self.flag = true; None } }
 // In particular the first item that fails the predicate IS consumed from the underlying iterator (and dropped).
-pub struct TakeWhileRef<F> { pub f: F, pub done: bool }
+pub struct TakeWhileRef<F> { pub f: F, pub done: bool, pub pred: Ghost<spec_fn(u8) -> bool> }
 impl<F: Fn(&u8) -> bool> TakeWhileRef<F> {
+    // `pred` is the spec predicate the closure computes (fixed at construction); stating the contract through it keeps
+    // the closure's quantified specification out of the callers' loop
     #[verifier::external_body]
     pub fn next(&mut self, inner: &mut ByteIter) -> (r: Option<u8>)
-        requires old(inner).pos() <= old(inner).items().len()
+        requires old(inner).pos() <= old(inner).items().len(), computes(old(self).f, old(self).pred@)
         ensures
-            final(self).f == old(self).f, final(inner).items() == old(inner).items(), final(inner).pos() <= final(inner).items().len(),
+            final(self).f == old(self).f, final(self).pred == old(self).pred,
+            final(inner).items() == old(inner).items(), final(inner).pos() <= final(inner).items().len(),
             old(self).done ==> r is None && final(self).done && final(inner).pos() == old(inner).pos(),
             !old(self).done && old(inner).pos() >= old(inner).items().len() ==> r is None && !final(self).done && final(inner).pos() == old(inner).pos(),
             !old(self).done && old(inner).pos() < old(inner).items().len() ==> final(inner).pos() == old(inner).pos() + 1 && ({
                 let x = old(inner).items()[old(inner).pos() as int];
-                (r == Some(x) && !final(self).done && old(self).f.ensures((&x,), true))
-                || (r is None && final(self).done && old(self).f.ensures((&x,), false)) }),
+                (r == Some(x) && !final(self).done && (old(self).pred@)(x))
+                || (r is None && final(self).done && !(old(self).pred@)(x)) }),
     { unimplemented!() }
 }
+#[verifier::external_body]
 fn by_ref_take_while<F: Fn(&u8) -> bool>(f: F) -> (r: TakeWhileRef<F>)
     requires forall|b: u8| f.requires((&b,))     // the adaptor calls the predicate on whatever the underlying iterator yields
-    ensures r.f == f, !r.done
-{ TakeWhileRef { f, done: false } }
+    ensures r.f == f, !r.done, forall|p: spec_fn(u8) -> bool| #[trigger] computes(f, p) ==> r.pred@ == p
+{ unimplemented!() }
 
 // =====================================================================================================
 // env: leaf decoders
@@ -361,11 +365,487 @@ proof fn lemma_a85_done(s: Seq<u8>, p: int, end: int, o0: Seq<u8>)
 }
 
 // =====================================================================================================
+// spec: the ISO encoders (same text as unit a85enc, where encode_85 / encode_hex are proved to compute them)
+// =====================================================================================================
+pub open spec fn a85_group_rel(c: Seq<u8>, e: Seq<u8>) -> bool {
+    c.len() == 4 && e.len() == 5 && a85_syms(e) && a85_value(e) == be32(c)
+}
+#[verifier::opaque]
+pub open spec fn a85_group(c: Seq<u8>) -> Seq<u8> {
+    let n = be32(c);
+    seq![((n / 52200625) % 85 + 33) as u8, ((n / 614125) % 85 + 33) as u8, ((n / 7225) % 85 + 33) as u8,
+         ((n / 85) % 85 + 33) as u8, (n % 85 + 33) as u8]
+}
+pub open spec fn zero_group(c: Seq<u8>) -> bool { c[0] == 0 && c[1] == 0 && c[2] == 0 && c[3] == 0 }
+pub open spec fn a85_eod() -> Seq<u8> { seq![0x7eu8, 0x3eu8] }      // "~>"
+pub open spec fn enc85_spec(d: Seq<u8>) -> Seq<u8>
+    decreases d.len()
+{
+    if d.len() >= 4 {
+        let g = d.subrange(0, 4);
+        (if zero_group(g) { seq![0x7au8] } else { a85_group(g) }) + enc85_spec(d.subrange(4, d.len() as int))
+    } else if d.len() == 0 {
+        a85_eod()
+    } else {
+        a85_group(d + zeros(4 - d.len())).subrange(0, d.len() as int + 1) + a85_eod()
+    }
+}
+pub open spec fn hexdigit(n: int) -> u8 { if n < 10 { (0x30 + n) as u8 } else { (0x61 + n - 10) as u8 } }
+pub open spec fn enchex_spec(d: Seq<u8>) -> Seq<u8> {
+    Seq::new(2 * d.len(), |k: int| if k % 2 == 0 { hexdigit(d[k / 2] as int / 16) } else { hexdigit(d[k / 2] as int % 16) })
+}
+
+// =====================================================================================================
+// C16: the decoders' specifications invert the encoders' specifications (pure spec-level lemmas)
+// =====================================================================================================
+pub proof fn lemma_first_not_all(s: Seq<u8>, p: spec_fn(u8) -> bool, k: int)
+    requires 0 <= k <= s.len(), forall|j: int| k <= j < s.len() ==> p(s[j])
+    ensures first_not(s, p, k) == s.len()
+    decreases s.len() - k
+{
+    if k < s.len() { lemma_first_not_all(s, p, k + 1); }
+}
+pub proof fn lemma_hex_inverse(x: Seq<u8>)
+    ensures hex_decode_spec(enchex_spec(x)) == Some(x)
+{
+    let e = enchex_spec(x);
+    assert forall|k: int| 0 <= k < e.len() implies is_hex(#[trigger] e[k]) && !is_ws(e[k]) && e[k] != 0x3e
+        && hexval(e[k]) == (if k % 2 == 0 { x[k / 2] as int / 16 } else { x[k / 2] as int % 16 }) by {
+        let b = x[k / 2] as int;
+        assert(0 <= b / 16 < 16 && 0 <= b % 16 < 16);
+    }
+    assert forall|j: int| 0 <= j < e.len() implies not_eod_hex()(e[j]) by {}
+    lemma_first_not_all(e, not_eod_hex(), 0);
+    assert(take_while_seq(e, not_eod_hex()) =~= e);
+    assert forall|j: int| 0 <= j < e.len() implies not_ws()(e[j]) by {}
+    lemma_filter_all(e, not_ws());
+    assert(hex_digits(e) == e);
+    assert(all_hex(e));
+    assert forall|k: int| 0 <= k < x.len() implies hex_bytes(e)[k] == x[k] by {
+        let b = x[k] as int;
+        assert((2 * k) / 2 == k && (2 * k) % 2 == 0 && (2 * k + 1) / 2 == k && (2 * k + 1) % 2 == 1);
+        assert(16 * (b / 16) + b % 16 == b);
+    }
+    assert(hex_bytes(e) =~= x);
+}
+
+// the positional base-85 digits solve the ISO group relation (existence; uniqueness is lemma_a85_group_unique of a85enc)
+pub proof fn lemma_a85_group_rel(c: Seq<u8>)
+    requires c.len() == 4
+    ensures a85_group_rel(c, a85_group(c))
+{
+    reveal(a85_group);
+    let n = be32(c);
+    assert(0 <= n <= 0xffff_ffff);
+    vstd::arithmetic::div_mod::lemma_div_denominator(n, 85, 85);
+    vstd::arithmetic::div_mod::lemma_div_denominator(n, 7225, 85);
+    vstd::arithmetic::div_mod::lemma_div_denominator(n, 614125, 85);
+    let q1 = n / 85; let q2 = n / 7225; let q3 = n / 614125; let q4 = n / 52200625;
+    assert(q2 == q1 / 85 && q3 == q2 / 85 && q4 == q3 / 85);
+    vstd::arithmetic::div_mod::lemma_fundamental_div_mod(n, 85);
+    vstd::arithmetic::div_mod::lemma_fundamental_div_mod(q1, 85);
+    vstd::arithmetic::div_mod::lemma_fundamental_div_mod(q2, 85);
+    vstd::arithmetic::div_mod::lemma_fundamental_div_mod(q3, 85);
+    assert(0 <= q4 < 85);
+    assert(q4 % 85 == q4);
+    let e = a85_group(c);
+    assert(e[0] - 33 == q4 && e[1] - 33 == q3 % 85 && e[2] - 33 == q2 % 85 && e[3] - 33 == q1 % 85 && e[4] - 33 == n % 85);
+}
+pub open spec fn off(s: Seq<u8>, p: int, k: int) -> u8 { s[p + k] }
+// a85_body looks at s[p..end) only
+pub proof fn lemma_a85_body_shift(s1: Seq<u8>, p1: int, s2: Seq<u8>, p2: int, n: int)
+    requires 0 <= p1, 0 <= p2, 0 <= n, p1 + n <= s1.len(), p2 + n <= s2.len(),
+        forall|k: int| 0 <= k < n ==> #[trigger] off(s1, p1, k) == off(s2, p2, k)
+    ensures a85_body(s1, p1, p1 + n) == a85_body(s2, p2, p2 + n)
+    decreases n
+{
+    reveal_with_fuel(a85_body, 2);
+    if n > 0 {
+        assert(off(s1, p1, 0) == off(s2, p2, 0));
+        if s1[p1] == 0x7a {
+            assert forall|k: int| 0 <= k < n - 1 implies #[trigger] off(s1, p1 + 1, k) == off(s2, p2 + 1, k) by { assert(off(s1, p1, k + 1) == off(s2, p2, k + 1)); }
+            lemma_a85_body_shift(s1, p1 + 1, s2, p2 + 1, n - 1);
+        } else {
+            assert(a85_group_at(s1, p1, p1 + n) =~= a85_group_at(s2, p2, p2 + n)) by {
+                assert(n > 1 ==> off(s1, p1, 1) == off(s2, p2, 1)); assert(n > 2 ==> off(s1, p1, 2) == off(s2, p2, 2));
+                assert(n > 3 ==> off(s1, p1, 3) == off(s2, p2, 3)); assert(n > 4 ==> off(s1, p1, 4) == off(s2, p2, 4));
+            }
+            if n >= 5 {
+                assert forall|k: int| 0 <= k < n - 5 implies #[trigger] off(s1, p1 + 5, k) == off(s2, p2 + 5, k) by { assert(off(s1, p1, k + 5) == off(s2, p2, k + 5)); }
+                lemma_a85_body_shift(s1, p1 + 5, s2, p2 + 5, n - 5);
+            }
+        }
+    }
+}
+// a final partial group: the first n+1 digits of the zero-padded group, completed with the largest digit, denote a value
+// whose first n bytes are the n data bytes (pure integer statement first)
+pub proof fn lemma_partial_arith(n: int, x0: int, x1: int, x2: int, d0: int, d1: int, d2: int, d3: int, d4: int, v1: int)
+    requires 1 <= n <= 3, 0 <= x0 < 256, 0 <= x1 < 256, 0 <= x2 < 256, n < 2 ==> x1 == 0, n < 3 ==> x2 == 0,
+        0 <= d0 < 85, 0 <= d1 < 85, 0 <= d2 < 85, 0 <= d3 < 85, 0 <= d4 < 85,
+        x0 * 16777216 + x1 * 65536 + x2 * 256 == d0 * 52200625 + d1 * 614125 + d2 * 7225 + d3 * 85 + d4,
+        v1 == d0 * 52200625 + d1 * 614125 + (if n >= 2 { d2 } else { 84 }) * 7225 + (if n >= 3 { d3 } else { 84 }) * 85 + 84,
+    ensures 0 <= v1 <= 0xffff_ffff, v1 / 16777216 == x0, n >= 2 ==> v1 / 65536 % 256 == x1, n >= 3 ==> v1 / 256 % 256 == x2
+{
+    let v0 = x0 * 16777216 + x1 * 65536 + x2 * 256;
+    let dl = v1 - v0;
+    if n == 1 {
+        assert(0 <= dl < 614125);
+        vstd::arithmetic::div_mod::lemma_fundamental_div_mod_converse(v1, 16777216, x0, dl);
+    } else if n == 2 {
+        assert(0 <= dl < 7225);
+        vstd::arithmetic::div_mod::lemma_fundamental_div_mod_converse(v1, 16777216, x0, x1 * 65536 + dl);
+        vstd::arithmetic::div_mod::lemma_fundamental_div_mod_converse(v1, 65536, x0 * 256 + x1, dl);
+        vstd::arithmetic::div_mod::lemma_fundamental_div_mod_converse(x0 * 256 + x1, 256, x0, x1);
+    } else {
+        assert(0 <= dl < 85);
+        vstd::arithmetic::div_mod::lemma_fundamental_div_mod_converse(v1, 16777216, x0, x1 * 65536 + x2 * 256 + dl);
+        vstd::arithmetic::div_mod::lemma_fundamental_div_mod_converse(v1, 65536, x0 * 256 + x1, x2 * 256 + dl);
+        vstd::arithmetic::div_mod::lemma_fundamental_div_mod_converse(x0 * 256 + x1, 256, x0, x1);
+        vstd::arithmetic::div_mod::lemma_fundamental_div_mod_converse(v1, 256, x0 * 65536 + x1 * 256 + x2, dl);
+        vstd::arithmetic::div_mod::lemma_fundamental_div_mod_converse(x0 * 65536 + x1 * 256 + x2, 256, x0 * 256 + x1, x2);
+    }
+}
+pub proof fn lemma_a85_partial(x: Seq<u8>, gu: Seq<u8>)
+    requires 1 <= x.len() <= 3, gu.len() == 5,
+        forall|k: int| 0 <= k <= x.len() ==> gu[k] == a85_group(x + zeros(4 - x.len()))[k],
+        forall|k: int| x.len() < k < 5 ==> gu[k] == 0x75u8,
+    ensures a85_word(gu) matches Some(w) && w.subrange(0, x.len() as int) == x
+{
+    let c = x + zeros(4 - x.len());
+    let g = a85_group(c);
+    lemma_a85_group_rel(c);
+    let n = x.len() as int;
+    let x0 = c[0] as int; let x1 = c[1] as int; let x2 = c[2] as int;
+    assert(c[3] == 0u8 && (n < 3 ==> c[2] == 0u8) && (n < 2 ==> c[1] == 0u8));
+    assert(x0 == x[0] as int && (n >= 2 ==> x1 == x[1] as int) && (n >= 3 ==> x2 == x[2] as int));
+    let d0 = g[0] - 33; let d1 = g[1] - 33; let d2 = g[2] - 33; let d3 = g[3] - 33; let d4 = g[4] - 33;
+    assert(gu[0] == g[0] && gu[1] == g[1] && (n >= 2 ==> gu[2] == g[2]) && (n >= 3 ==> gu[3] == g[3]));
+    assert((n < 2 ==> gu[2] == 0x75u8) && (n < 3 ==> gu[3] == 0x75u8) && gu[4] == 0x75u8);
+    let v1 = a85_value(gu);
+    lemma_partial_arith(n, x0, x1, x2, d0, d1, d2, d3, d4, v1);
+    assert(a85_syms(gu));
+    assert(be4(v1).subrange(0, n) =~= x);
+}
+pub open spec fn a85_data_char(b: u8) -> bool { a85_sym(b) || b == 0x7au8 }
+// one unfolding of a85_body per kind of group
+pub proof fn lemma_body_unfold(s: Seq<u8>, p: int, end: int)
+    ensures
+        p >= end ==> a85_body(s, p, end) == Some(Seq::<u8>::empty()),
+        p < end && s[p] == 0x7au8 ==> a85_body(s, p, end) == opt_cat(zeros(4), a85_body(s, p + 1, end)),
+        p + 5 <= end && s[p] != 0x7au8 ==> a85_body(s, p, end) == (match a85_word(a85_group_at(s, p, end)) {
+            None => None, Some(w) => opt_cat(w, a85_body(s, p + 5, end)) }),
+        2 <= end - p <= 4 && s[p] != 0x7au8 ==> a85_body(s, p, end) == (match a85_word(a85_group_at(s, p, end)) {
+            None => None, Some(w) => Some(w.subrange(0, end - p - 1)) }),
+{
+    reveal_with_fuel(a85_body, 2);
+}
+// the shape of the ISO encoder's output and what the ISO decoder makes of its data part
+pub open spec fn enc85_shape(x: Seq<u8>, e: Seq<u8>) -> bool {
+    let n = e.len() as int;
+    n >= 2 && e[n - 2] == 0x7eu8 && e[n - 1] == 0x3eu8
+    && (forall|k: int| 0 <= k < n - 2 ==> a85_data_char(#[trigger] e[k]))
+    && a85_body(e, 0, n - 2) == Some(x)
+}
+proof fn lemma_shape_full(x: Seq<u8>, er: Seq<u8>)
+    requires x.len() >= 4, enc85_shape(x.subrange(4, x.len() as int), er)
+    ensures enc85_shape(x, (if zero_group(x.subrange(0, 4)) { seq![0x7au8] } else { a85_group(x.subrange(0, 4)) }) + er)
+{
+    let g = x.subrange(0, 4);
+    let rest = x.subrange(4, x.len() as int);
+    lemma_a85_group_rel(g);
+    let h = if zero_group(g) { seq![0x7au8] } else { a85_group(g) };
+    let e = h + er;
+    let hl = h.len() as int;
+    let m = er.len() as int - 2;
+    assert forall|k: int| 0 <= k < m implies #[trigger] off(e, hl, k) == off(er, 0, k) by {}
+    lemma_a85_body_shift(e, hl, er, 0, m);
+    assert(a85_body(e, hl, hl + m) == Some(rest));
+    assert(e.len() - 2 == hl + m);
+    lemma_body_unfold(e, 0, hl + m);
+    assert forall|k: int| 0 <= k < hl + m implies a85_data_char(#[trigger] e[k]) by {
+        if k < hl { assert(e[k] == h[k]); } else { assert(e[k] == er[k - hl]); }
+    }
+    if zero_group(g) {
+        assert(e[0] == 0x7au8);
+        assert(zeros(4) + rest =~= x);
+    } else {
+        assert(e[0] == h[0] && a85_sym(h[0]));
+        assert(a85_group_at(e, 0, hl + m) =~= h);
+        lemma_be32_digits(g);
+        assert(a85_word(h) == Some(g));
+        assert(g + rest =~= x);
+    }
+}
+proof fn lemma_shape_partial(x: Seq<u8>)
+    requires 1 <= x.len() <= 3
+    ensures enc85_shape(x, a85_group(x + zeros(4 - x.len())).subrange(0, x.len() as int + 1) + a85_eod())
+{
+    let n = x.len() as int;
+    let c = x + zeros(4 - x.len());
+    lemma_a85_group_rel(c);
+    let h = a85_group(c).subrange(0, n + 1);
+    let e = h + a85_eod();
+    let gu = a85_group_at(e, 0, n + 1);
+    assert forall|k: int| 0 <= k <= n implies gu[k] == a85_group(c)[k] by { assert(e[k] == h[k]); }
+    lemma_a85_partial(x, gu);
+    assert(e[0] == a85_group(c)[0] && a85_sym(e[0]));
+    assert forall|k: int| 0 <= k < n + 1 implies a85_data_char(#[trigger] e[k]) by { assert(e[k] == a85_group(c)[k]); }
+    lemma_body_unfold(e, 0, n + 1);
+}
+pub proof fn lemma_enc85_shape(x: Seq<u8>)
+    ensures enc85_shape(x, enc85_spec(x))
+    decreases x.len()
+{
+    if x.len() >= 4 {
+        lemma_enc85_shape(x.subrange(4, x.len() as int));
+        lemma_shape_full(x, enc85_spec(x.subrange(4, x.len() as int)));
+    } else if x.len() == 0 {
+        lemma_body_unfold(a85_eod(), 0, 0);
+        assert(x =~= Seq::<u8>::empty());
+    } else {
+        lemma_shape_partial(x);
+    }
+}
+pub proof fn lemma_a85_inverse(x: Seq<u8>)
+    ensures a85_decode_spec(enc85_spec(x)) == Some(x)
+{
+    let e = enc85_spec(x);
+    let n = e.len() as int;
+    lemma_enc85_shape(x);
+    assert forall|k: int| 0 <= k < n implies not_ws()(e[k]) by { if k < n - 2 { assert(a85_data_char(e[k])); } }
+    lemma_filter_all(e, not_ws());
+    assert(strip_ws(e) == e);
+    assert forall|j: int| 0 <= j < n - 2 implies e[j] != 0x7eu8 by { assert(a85_data_char(e[j])); }
+    lemma_first_from_unique(e, 0x7eu8, 0, n - 2);
+}
+
+// =====================================================================================================
+// env: libflate / weezl as typestate models. What the compressors compute is uninterpreted; the contracts say which
+// CONFIGURATION a value was built with and WHEN bytes reach the sink.
+// =====================================================================================================
+// RFC 1950 (zlib framing) / RFC 1951 (raw deflate): what a conforming inflater makes of the bytes
+pub uninterp spec fn zlib_inflated(data: Seq<u8>) -> Option<Seq<u8>>;
+pub uninterp spec fn raw_inflated(data: Seq<u8>) -> Option<Seq<u8>>;
+// what flate_decode computes before the predictor stage (same text as unit flate): zlib first, raw deflate as fallback
+pub open spec fn inflated(data: Seq<u8>) -> Option<Seq<u8>> {
+    if zlib_inflated(data) is Some { zlib_inflated(data) } else { raw_inflated(data) }
+}
+#[derive(Debug)]
+pub struct IoError;
+pub mod libflate {
+    use vstd::prelude::*;
+    use super::*;
+    pub mod finish {
+        use vstd::prelude::*;
+        use super::super::*;
+        // libflate::finish::Finish<T, io::Error>: the sink handed back by `finish()`
+        #[verifier::external_body]
+        #[verifier::reject_recursive_types(W)]
+        pub struct Finish<W> { w: W }
+        impl Finish<Vec<u8>> {
+            pub uninterp spec fn sink(&self) -> Seq<u8>;
+            // [A] writing into a Vec<u8> cannot fail
+            #[verifier::external_body]
+            pub fn into_result(self) -> (r: Result<Vec<u8>, IoError>)
+                ensures r matches Ok(v) && v@ == self.sink()
+            { unimplemented!() }
+        }
+    }
+    // Both encoders buffer the data of the current block; the last block, its end-of-block/final markers (and for zlib
+    // the Adler-32 trailer) are written by `finish()` ONLY. Before `finish()` nothing is known about the sink: for short
+    // inputs it is still empty, for long ones it holds an unterminated prefix. There is no Drop impl that would flush.
+    // `Encoder<W>` is generic in the sink, but only an OWNED Vec<u8> sink can be finished in this model.
+    pub mod deflate {
+        use vstd::prelude::*;
+        use super::super::*;
+        use super::finish::Finish;
+        #[verifier::external_body]
+        #[verifier::reject_recursive_types(W)]
+        pub struct Encoder<W> { w: W }
+        impl<W> Encoder<W> {
+            pub uninterp spec fn input(&self) -> Seq<u8>;      // bytes accepted so far
+            #[verifier::external_body]
+            pub fn new(w: W) -> (r: Encoder<W>) ensures r.input() == Seq::<u8>::empty() { unimplemented!() }
+            // std::io::Write::write_all. [A] cannot fail on a Vec<u8> sink
+            #[verifier::external_body]
+            pub fn write_all(&mut self, data: &[u8]) -> (r: Result<(), IoError>)
+                ensures r is Ok, final(self).input() == old(self).input() + data@
+            { unimplemented!() }
+        }
+        impl Encoder<Vec<u8>> {
+            // [A: libflate] the finished sink is a raw deflate stream (RFC 1951) of everything written
+            #[verifier::external_body]
+            pub fn finish(self) -> (r: Finish<Vec<u8>>) ensures raw_inflated(r.sink()) == Some(self.input()) { unimplemented!() }
+        }
+    }
+    pub mod zlib {
+        use vstd::prelude::*;
+        use super::super::*;
+        use super::finish::Finish;
+        #[verifier::external_body]
+        #[verifier::reject_recursive_types(W)]
+        pub struct Encoder<W> { w: W }
+        impl<W> Encoder<W> {
+            pub uninterp spec fn input(&self) -> Seq<u8>;
+            // writes the 2-byte zlib header; [A] cannot fail on a Vec<u8> sink
+            #[verifier::external_body]
+            pub fn new(w: W) -> (r: Result<Encoder<W>, IoError>) ensures r matches Ok(e) && e.input() == Seq::<u8>::empty() { unimplemented!() }
+            #[verifier::external_body]
+            pub fn write_all(&mut self, data: &[u8]) -> (r: Result<(), IoError>)
+                ensures r is Ok, final(self).input() == old(self).input() + data@
+            { unimplemented!() }
+        }
+        impl Encoder<Vec<u8>> {
+            // [A: libflate] the finished sink is a zlib stream (RFC 1950) of everything written
+            #[verifier::external_body]
+            pub fn finish(self) -> (r: Finish<Vec<u8>>) ensures zlib_inflated(r.sink()) == Some(self.input()) { unimplemented!() }
+        }
+    }
+}
+// ---- weezl. A coder is fixed by three things (weezl docs): the bit order, the `size` argument = number of bits of a data
+// symbol ("minimum code size": clear code = 1 << size, first codes are size + 1 bits wide), and the code-width switch
+// variant (`with_tiff_size_switch` = one code early = what ISO 32000-1 calls EarlyChange 1).
+pub struct LzwCfg { pub msb_first: bool, pub symbol_bits: u8, pub early: bool }
+// what the LZW expander of that configuration makes of the bytes (None: not a complete stream)
+pub uninterp spec fn lzw_expand(cfg: LzwCfg, code: Seq<u8>) -> Option<Seq<u8>>;
+// ISO 32000-1 7.4.4.2: data bytes 0..255, clear-table = 256, EOD = 257, codes 9 to 12 bits, "packed into a continuous
+// bit stream, high-order bit first"; Table 8 EarlyChange: 0 = code length increases postponed as long as possible, 1 = one code early
+pub open spec fn pdf_lzw_cfg(early_change: int) -> LzwCfg { LzwCfg { msb_first: true, symbol_bits: 8, early: early_change != 0 } }
+pub mod weezl {
+    use vstd::prelude::*;
+    use super::*;
+    pub enum BitOrder { Msb, Lsb }
+    pub mod decode {
+        use vstd::prelude::*;
+        use super::super::*;
+        use super::BitOrder;
+        pub struct Decoder { pub cfg: Ghost<LzwCfg> }
+        impl Decoder {
+            #[verifier::external_body]
+            pub fn new(order: BitOrder, size: u8) -> (r: Decoder)
+                requires size <= 12                          // weezl::assert_decode_size panics otherwise
+                ensures r.cfg@ == (LzwCfg { msb_first: order is Msb, symbol_bits: size, early: false })
+            { unimplemented!() }
+            #[verifier::external_body]
+            pub fn with_tiff_size_switch(order: BitOrder, size: u8) -> (r: Decoder)
+                requires size <= 12
+                ensures r.cfg@ == (LzwCfg { msb_first: order is Msb, symbol_bits: size, early: true })
+            { unimplemented!() }
+        }
+    }
+    pub mod encode {
+        use vstd::prelude::*;
+        use super::super::*;
+        use super::BitOrder;
+        pub struct Encoder { pub cfg: Ghost<LzwCfg> }
+        impl Encoder {
+            #[verifier::external_body]
+            pub fn new(order: BitOrder, size: u8) -> (r: Encoder)
+                requires 2 <= size <= 12                     // weezl::assert_encode_size panics otherwise
+                ensures r.cfg@ == (LzwCfg { msb_first: order is Msb, symbol_bits: size, early: false })
+            { unimplemented!() }
+            #[verifier::external_body]
+            pub fn with_tiff_size_switch(order: BitOrder, size: u8) -> (r: Encoder)
+                requires 2 <= size <= 12
+                ensures r.cfg@ == (LzwCfg { msb_first: order is Msb, symbol_bits: size, early: true })
+            { unimplemented!() }
+        }
+    }
+}
+// R7 `DEC.into_stream(&mut OUT).decode_all(DATA).status` (io::Error -> PdfError by the `?` that stays at the call site).
+// `decode_all` runs to the end code or to the end of the data.
+#[verifier::external_body]
+fn weezl_decode_all(decoder: &mut weezl::decode::Decoder, out: &mut Vec<u8>, data: &[u8]) -> (r: Result<()>)
+    requires old(out)@.len() == 0
+    ensures r is Ok ==> lzw_expand(old(decoder).cfg@, data@) == Some(final(out)@),
+            r is Err ==> lzw_expand(old(decoder).cfg@, data@) is None,
+{ unimplemented!() }
+// R7 `ENC.into_stream(&mut OUT).encode_all(DATA).status`. `encode_all` finishes the stream (writes the end code and
+// flushes the bit buffer), so nothing is left behind in the encoder. [A: weezl] the output is expanded to the input by
+// the expander of the SAME configuration (bit order, symbol size, switch variant); [A] cannot fail on a Vec<u8> sink.
+#[verifier::external_body]
+fn weezl_encode_all(encoder: &mut weezl::encode::Encoder, out: &mut Vec<u8>, data: &[u8]) -> (r: Result<()>)
+    requires old(out)@.len() == 0
+    ensures r is Ok, lzw_expand(old(encoder).cfg@, final(out)@) == Some(data@),
+{ unimplemented!() }
+
+// ---- the other filter parameter structs (opaque) and callees proved elsewhere
+#[verifier::external_body] pub struct DCTDecodeParams { _p: () }
+#[verifier::external_body] pub struct CCITTFaxDecodeParams { _p: () }
+#[verifier::external_body] pub struct JBIG2DecodeParams { _p: () }
+// proved in units/a85enc: encode_hex/enchex_two_digits_per_byte_high_first
+#[verifier::external_body]
+fn encode_hex(data: &[u8]) -> (r: Vec<u8>)
+    requires data@.len() <= isize::MAX
+    ensures r@ =~= enchex_spec(data@)
+{ unimplemented!() }
+// proved in units/a85enc: encode_85/enc85_is_iso_encoder
+#[verifier::external_body]
+fn encode_85(data: &[u8]) -> (res: Vec<u8>)
+    requires data@.len() <= isize::MAX
+    ensures res@ =~= enc85_spec(data@)
+{ unimplemented!() }
+// proved in units/flate: flate_decode/inflate_err, flate_decode/no_predictor
+#[verifier::external_body]
+fn flate_decode(data: &[u8], params: &LZWFlateParams) -> (r: Result<Vec<u8>>)
+    ensures inflated(data@) is None ==> r is Err,
+        inflated(data@) is Some && params.predictor == 1 ==> (r matches Ok(v) && v@ == inflated(data@).unwrap()),
+{ unimplemented!() }
+// [A: Rust] allocation limit: no Vec<u8> holds more than isize::MAX bytes
+#[verifier::external_body]
+proof fn axiom_vec_u8_len(v: &Vec<u8>)
+    ensures v@.len() <= isize::MAX
+{}
+
+// =====================================================================================================
 // extracted code
 // =====================================================================================================
 //@@ decode_nibble
 //@@ decode_hex
 //@@ decode_85
+
+//@@ struct LZWFlateParams
+//@@ enum StreamFilter
+//@@ flate_encode
+//@@ lzw_decode
+//@@ lzw_encode
+//@@ encode
+
+// =====================================================================================================
+// C16 compositions (hand-written, callees seen through their contracts only): decode(encode(x)) == Ok(x)
+// =====================================================================================================
+fn hex_roundtrip(x: &[u8]) -> (r: Result<Vec<u8>>)
+    requires x@.len() <= isize::MAX
+    ensures r matches Ok(v) && v@ == x@
+{
+    let e = encode_hex(x);
+    proof { axiom_vec_u8_len(&e); lemma_hex_inverse(x@); }
+    decode_hex(&e)
+}
+fn a85_roundtrip(x: &[u8]) -> (r: Result<Vec<u8>>)
+    requires x@.len() <= isize::MAX
+    ensures r matches Ok(v) && v@ == x@
+{
+    let e = encode_85(x);
+    proof { axiom_vec_u8_len(&e); lemma_a85_inverse(x@); }
+    decode_85(&e)
+}
+fn flate_roundtrip(x: &[u8], p: &LZWFlateParams) -> (r: Result<Vec<u8>>)
+    requires p.predictor == 1
+    ensures r matches Ok(v) && v@ == x@
+{
+    let e = flate_encode(x);
+    flate_decode(&e, p)
+}
+fn lzw_roundtrip(x: &[u8], p: &LZWFlateParams) -> (r: Result<Vec<u8>>)
+    requires p.predictor == 1, p.early_change == 0 || p.early_change == 1
+    ensures r matches Ok(v) && v@ == x@
+{
+    match lzw_encode(x, p) {
+        Ok(e) => lzw_decode(&e, p),
+        Err(e) => Err(e),
+    }
+}
 
 }
 fn main(){}
